@@ -146,8 +146,11 @@ func features(c caseT) []string {
 		it := &items[i]
 		set["item-"+it.K] = true
 		we(it.E)
-		if it.S != nil {
-			we(it.S.E)
+		for st := it.S; st != nil; st = st.S {
+			we(st.E)
+			if st.K == "lit" {
+				set["stmt-func-literal-call"] = true
+			}
 		}
 		if it.B != nil {
 			we(it.B.Guard)
@@ -183,7 +186,7 @@ func main() {
 		return
 	}
 	run := common.NewRun("C11")
-	run.Res.Rule = "cases = (a) generated sequential programs as item lists (package-level variables whose initialisers call logging functions, function literals over globals, functions incl. recursion, named types with methods, init functions, statements of main: prints, assignments, calls, x := e; a final dump of every variable) × seeded cut lists (1..all item boundaries) — half of them with initialisers and function literals that name package-level variables directly (cut anywhere: the shape of F11-1); a quarter perturbed out of the domain (forward reference, initialiser after a statement, declaration naming a variable of main, redeclaration — also `var x = x + k` —, use before define, a variable that depends on itself directly / in its literal / through a function); (b) histories = a session followed by rounds of redefinitions (function, variable by var with a constant / an expression over the session / itself, variable by :=, function literal, method declared again — the shape of F11-7 —, main declared alone or among variables and init functions, again and followed by more texts — the shape of F11-8) each followed by uses of every function; a history with an initialization cycle must stop there with a variable definition loop; every case is run through 3 session entry points and (programs) 5 whole-program entry points; one evaluation = one (case, entry point); non-trivial = at least two texts and at least one call; distinct = distinct protocol line + entry point"
+	run.Res.Rule = "cases = (a) generated sequential programs as item lists (package-level variables whose initialisers call logging functions, function literals over globals, functions incl. recursion, named types with methods, init functions, statements of main: prints, assignments, calls, x := e, one in seven as the call of a function literal `func() { s }()`; in a third of the programs a block that starts with such a literal call, goes on with 0–2 simple statements and ends in a one-argument call, with a cut in front of it three times out of four (the shape of seed C11-4: a statement text whose first token is `func`); a final dump of every variable) × seeded cut lists (1..all item boundaries) — half of them with initialisers and function literals that name package-level variables directly (cut anywhere: the shape of F11-1); a quarter perturbed out of the domain (forward reference, initialiser after a statement, declaration naming a variable of main, redeclaration — also `var x = x + k` —, use before define, a variable that depends on itself directly / in its literal / through a function); (b) histories = a session followed by rounds of redefinitions (function, variable by var with a constant / an expression over the session / itself, variable by :=, function literal, method declared again — the shape of F11-7 —, main declared alone or among variables and init functions, again and followed by more texts — the shape of F11-8) each followed by uses of every function; a history with an initialization cycle must stop there with a variable definition loop; every case is run through 3 session entry points and (programs) 5 whole-program entry points; one evaluation = one (case, entry point); non-trivial = at least two texts and at least one call; distinct = distinct protocol line + entry point"
 	defer run.Finish()
 	drv, err := common.StartDriver("C11")
 	if err != nil {
